@@ -1108,6 +1108,8 @@ func main() {
 			runUnpackLimitLeaf(it, r)
 		case "ulimit-e2e":
 			runUnpackLimitE2E(it, r)
+		case "ulimit-extreme":
+			runUnpackLimitExtreme(it, r)
 		}
 	}
 	core.Finish()
